@@ -6,6 +6,7 @@ import ast
 from sa import astutil as A
 from sa import cfg as C
 from sa import dataflow as D
+from sa import surface as S
 from sa.index import AnalysisError
 
 PROP = 'C16'
@@ -19,7 +20,7 @@ EXPLANATION = (
     'lock region as the write; (c) status guards exist; (d) read-modify-write '
     'of generator counters is under a lock on every path from a worker entry '
     'point.  Necessary conditions for exactly-once; schedules are not explored.')
-FLOORS = {'C16.a': 6, 'C16.b': 2, 'C16.c': 1, 'C16.d': 1, 'C16.e': 2}
+FLOORS = {'C16.a': 6, 'C16.b': 2, 'C16.c': 1, 'C16.d': 1, 'C16.e': 2, 'C16.z': 2}
 FILES = ['pyglove/core/tuning/local_backend.py', 'pyglove/core/tuning/sample.py',
          'pyglove/core/tuning/protocols.py', 'pyglove/core/tuning/backend.py',
          'pyglove/core/geno/dna_generator.py', 'pyglove/ext/evolution/base.py']
@@ -453,5 +454,6 @@ def run(ctx):
   rule_c(ctx)
   rule_d(ctx)
   rule_e(ctx)
+  S.optional_truthiness_obligations(ctx, 'C16.z', ['pyglove/core/tuning/sample.py', 'pyglove/core/tuning/backend.py', 'pyglove/core/tuning/local_backend.py', 'pyglove/core/tuning/protocols.py'], 'group 0 is a group, reward 0.0 is a reward')
   ctx.assume('setup-time methods (__init__, _on_bound, setup, recover) run before workers start')
   ctx.assume('atomicity by construction is necessary, not sufficient, for exactly-once')
